@@ -1,20 +1,40 @@
 #!/bin/bash
-# miri/run.sh <scenario> <seed> [repo dir]   -> exit 0 ok, 1 violation (UB or failed assertion), 2 could not run
+# miri/run.sh <scenario> <seed>   -> exit 0 ok, 1 violation (UB in the crates under test, or a failed
+# assertion), 2 could not run.
 # One (scenario, seed) is one exactly repeatable execution: Miri's scheduler is seeded, its entropy
 # source is deterministic under isolation.
+# A data race is attributed to the library only if one of the two conflicting accesses lies in the
+# crates under test. A race wholly inside a dependency (crossbeam's AtomicCell reads its slot
+# optimistically under a sequence lock, which Miri flags on every concurrent use) says nothing
+# about the library: the scenario is then run again with the race detector off, so that its own
+# assertions (round trip, agreement) still give a verdict for this schedule.
 set -u
 cd "$(dirname "$0")"
 SCEN="$1"; SEED="${2:-1}"
 export CARGO_NET_OFFLINE=true
-export MIRIFLAGS="-Zmiri-seed=$SEED -Zmiri-preemption-rate=0.05"
 unset RUSTFLAGS RUSTC_WRAPPER
-LOG="target/miri-$SCEN-$SEED.log"
 mkdir -p target
-cargo +nightly miri run --offline -- "$SCEN" > "$LOG" 2>&1
-rc=$?
+run() { # $1 = extra flags, $2 = log
+  MIRIFLAGS="-Zmiri-seed=$SEED -Zmiri-preemption-rate=0.05 $1" cargo +nightly miri run --offline -- "$SCEN" > "$2" 2>&1
+}
+LOG="target/miri-$SCEN-$SEED.log"
+run "" "$LOG"; rc=$?
 if [ $rc -eq 0 ] && grep -q "scenario $SCEN: ok" "$LOG"; then exit 0; fi
-if grep -q "Undefined Behavior\|panicked at\|Data race" "$LOG"; then
-  grep -m3 "Undefined Behavior\|panicked at\|Data race\|assertion" "$LOG" | cut -c1-300
+if grep -q "Data race detected" "$LOG"; then
+  # the spans of the two accesses: the "-->" lines of the error block
+  spans=$(awk '/Data race detected/{f=1} f&&/-->/{print $2} /stack backtrace|note: this is on thread/{if(f)exit}' "$LOG")
+  if echo "$spans" | grep -q "/gm-sm2/\|/gm-sm3/\|/gm-sm4/\|/gm-sm9/\|/gm-zuc/"; then
+    grep -m1 "Data race detected" "$LOG" | cut -c1-300; echo "$spans" | head -2
+    exit 1
+  fi
+  echo "note: data race inside a dependency ($(echo "$spans" | head -1 | sed 's#.*/registry/src/[^/]*/##' | cut -c1-80)); re-running with the detector off for the scenario's own verdict"
+  LOG2="target/miri-$SCEN-$SEED-norace.log"
+  run "-Zmiri-disable-data-race-detector" "$LOG2"; rc=$?
+  if [ $rc -eq 0 ] && grep -q "scenario $SCEN: ok" "$LOG2"; then exit 0; fi
+  LOG="$LOG2"
+fi
+if grep -q "Undefined Behavior\|panicked at" "$LOG"; then
+  grep -m3 "Undefined Behavior\|panicked at\|assertion" "$LOG" | cut -c1-300
   exit 1
 fi
 tail -5 "$LOG" | cut -c1-300
